@@ -49,6 +49,7 @@ enum Ev {
   OutboundWrite,
   Pong(bool),          // well-formed / junk context (still a PONG)
   PeerPing(usize),     // context length
+  PeerPingBurst(usize), // several PINGs with distinct contexts arriving in one read
   MalformedPing,       // PING shorter than its TTL
   MalformedPong,       // "PON"
 }
@@ -88,7 +89,13 @@ fn timeline(rep: &mut Report, rng: &mut Rng, ivl_ms: u64, to_ms: u64, v2: bool, 
       6 => Ev::InboundData,
       7 => Ev::OutboundWrite,
       8 => Ev::Pong(rng.chance(3, 4)),
-      9 => Ev::PeerPing(*rng.pick(&[0usize, 1, 8, 16, 17, 20])),
+      9 => {
+        if rng.chance(1, 3) {
+          Ev::PeerPingBurst(rng.range(2, 5))
+        } else {
+          Ev::PeerPing(*rng.pick(&[0usize, 1, 8, 16, 17, 20]))
+        }
+      }
       10 => Ev::MalformedPing,
       _ => Ev::MalformedPong,
     };
@@ -212,6 +219,32 @@ fn timeline(rep: &mut Report, rng: &mut Rng, ivl_ms: u64, to_ms: u64, v2: bool, 
           violation(rep, "pong_context_mismatch", format!("PONG context {} differs from PING context {}", hex(&pongs[0].body[5..]), hex(&ctx)), &log, side.order.contains('T'));
         }
       }
+      Ev::PeerPingBurst(k) => {
+        // k PINGs, each with its own context, in ONE read: each must get its own PONG
+        let ctxs: Vec<Vec<u8>> = (0..*k).map(|i| vec![b'A' + i as u8; 1 + i]).collect();
+        let mut bytes = vec![];
+        for c in &ctxs {
+          bytes.extend(enc(refzmtp::ping(300, c)));
+        }
+        let _ = side.feed(&bytes);
+        (act_lo, act_hi) = (t_ev, Instant::now());
+        if waiting.is_some() {
+          waiting = None;
+          side.order.push('T');
+        }
+        let emitted = parse_sent(&side.sent[sent_before..].iter().flat_map(|b| b.iter().copied()).collect::<Vec<u8>>());
+        log.push(format!("+{:?} {} peer PINGs in one read -> {} frames out", t0.elapsed(), k, emitted.len()));
+        if v2 {
+          continue;
+        }
+        let mut got: Vec<Vec<u8>> = emitted.iter().filter(|f| f.command && f.body.starts_with(b"\x04PONG")).map(|f| f.body[5..].to_vec()).collect();
+        let mut want = ctxs.clone();
+        got.sort();
+        want.sort();
+        if emitted.len() != *k || got != want {
+          violation(rep, "ping_burst_not_answered_one_for_one", format!("{} PINGs with distinct contexts arriving in one read were answered by {} frame(s) carrying contexts {:?}", k, emitted.len(), got.iter().map(|c| String::from_utf8_lossy(c).to_string()).collect::<Vec<_>>()), &log, side.order.contains('T'));
+        }
+      }
       Ev::MalformedPing => {
         let _ = side.feed(&enc(Frame::cmd(b"\x04PING\x00")));
         if !side.closed() {
@@ -237,7 +270,7 @@ fn timeline(rep: &mut Report, rng: &mut Rng, ivl_ms: u64, to_ms: u64, v2: bool, 
     }
     if side.errors.len() > err_before && !matches!(e, Ev::Tick) && !v2 {
       // inbound well-formed frames must not error
-      if matches!(e, Ev::InboundData | Ev::Pong(_) | Ev::PeerPing(_)) {
+      if matches!(e, Ev::InboundData | Ev::Pong(_) | Ev::PeerPing(_) | Ev::PeerPingBurst(_)) {
         violation(rep, "inbound_frame_error", format!("well-formed inbound frame caused an error: {:?}", side.errors.last()), &log, side.order.contains('T'));
       }
     }
